@@ -2,6 +2,7 @@ import Batteries.Tactic.Alias
 import GenlmModel.Proofs.Cert
 import GenlmModel.Proofs.Tzeng
 import GenlmModel.Proofs.TzengMin
+import GenlmModel.Proofs.Simple
 /-! # C14 — equivalence and minimality certificates (exact arithmetic) -/
 namespace Genlm.Props.C14
 /-- an accepted certificate proves equal weights on ALL words -/
@@ -27,4 +28,14 @@ alias min_is_hankel_rank := Genlm.minQ_spec
 alias min_terminates := Genlm.minQ_terminates
 alias forward_basis_spans_forward_space := Genlm.forwardBasisQ_spec
 alias hankel_rank_lower_bound := Genlm.hankelRank_le_dim
+
+/-! ## from the user's automata (ε arcs) to the matrix form and back -/
+/-- `WFSA.simple` (ε-removal, dense start/arc/stop matrices) has the automaton's string weights -/
+alias simple_has_same_weights := Genlm.simple_weight
+alias simple_has_same_weights_limit := Genlm.simple_weight_PL
+/-- THE end-to-end decision theorem on automata with ε arcs: no counterexample ⇔ equal weights on all strings -/
+alias field_equivalence_decides := Genlm.field_eq_decides
+alias field_counterexample_genuine := Genlm.field_counterexample_sound
+/-- `WFSA.min = simple.min.to_wfsa()`: ε-free, same weights, Hankel-rank many states -/
+alias field_min_end_to_end := Genlm.field_min_wfsa
 end Genlm.Props.C14
